@@ -68,11 +68,14 @@ Definition ce_model (x : ce_in) : ce_out :=
   (r, match r with Ok ob => map (fun _ => validate_exec g i ob) (c_oracles g) | _ => [] end).
 Definition ce_oeqb (a b : ce_out) : bool := res_eqb eobs_eqb (fst a) (fst b) && list_eqb Bool.eqb (snd a) (snd b).
 (* C11_exec on the implementation's answer: never a panic; an error only if one of the oracle's own reads fails or
-   the destination publishes no prices; whatever is produced is accepted by every oracle *)
+   the destination publishes no prices; whatever is produced is accepted by every oracle — unless the previous
+   outcome names a chain the home chain no longer configures (outside the stable-home-configuration hypothesis
+   [pending_known]; the model still has to predict the answer) *)
 Definition ce_ok (x : ce_in) (o : ce_out) : bool :=
   let '(g, fl, st, phase, i) := x in
   match fst o with
-  | Ok _ => Nat.eqb (length (snd o)) (length (c_oracles g)) && forallb (fun v => v) (snd o)
+  | Ok _ => negb (pending_known g st) ||
+            (Nat.eqb (length (snd o)) (length (c_oracles g)) && forallb (fun v => v) (snd o))
   | Err => own_failure g i fl || negb (dest_priced g st)
   | _ => false
   end.
